@@ -18,6 +18,7 @@ package simapp
 
 import (
 	"bytes"
+	"math/big"
 	"encoding/json"
 	"crypto/sha256"
 	"encoding/hex"
@@ -548,8 +549,13 @@ func loopRun(rep *Report, full bool) (transcript []string, err error) {
 	if err != nil {
 		return nil, err
 	}
+	const foldKind = "real-history-statistics-are-not-the-fold"
 	violate := func(kind, label, what string) {
 		if rep == nil {
+			return
+		}
+		// one history, two properties: C12 judges the statistics fold, C03 everything else
+		if (rep.Prop == "C12") != (kind == foldKind) {
 			return
 		}
 		rep.Violate(Violation{Kind: kind, Group: "real-envelope", Sig: "loop: " + label,
@@ -635,6 +641,8 @@ func loopRun(rep *Report, full bool) (transcript []string, err error) {
 	}
 	phases = append(phases, phase{"token factory paused", func() error { return lw.ApplyEnv(lw.Ctx, "ftf-pause") }})
 	menu := lw.loopMenu(full)
+	foldIn := map[string]*big.Int{}
+	var foldN uint64
 	for pi, ph := range phases {
 		if err := ph.prep(); err != nil {
 			return lw.Transcript, fmt.Errorf("loop phase %q: %w", ph.name, err)
@@ -687,6 +695,24 @@ func loopRun(rep *Report, full bool) (transcript []string, err error) {
 			switch {
 			case o.AckSuccess:
 				rep.Outcome("real-success-ack")
+				// fold for the statistics invariant at the end of the history
+				rcv, den, amt := s.Receiver, "transfer/channel-1/"+s.Base, s.Amount
+				if s.Raw != nil {
+					var d transfertypes.FungibleTokenPacketData
+					if transfertypes.ModuleCdc.UnmarshalJSON(s.Raw, &d) == nil {
+						rcv, den, amt = d.Receiver, d.Denom, d.Amount
+					}
+				}
+				if decodesTo(rcv, lw.Orb) {
+					if v, ok := parseIntLikeSDK(amt); ok {
+						base := strings.TrimPrefix(den, "transfer/channel-1/")
+						if foldIn[base] == nil {
+							foldIn[base] = new(big.Int)
+						}
+						foldIn[base].Add(foldIn[base], v)
+						foldN++
+					}
+				}
 				// all-or-nothing, success side: nothing may stay on the orbiter account
 				for k, v := range o.Delta {
 					if strings.HasPrefix(k, lw.Orb.String()+"|") && !strings.HasPrefix(v, "-") {
@@ -706,6 +732,35 @@ func loopRun(rep *Report, full bool) (transcript []string, err error) {
 		}
 	}
 	if rep != nil {
+		// the statistics after the whole block history are the fold of the transfers IBC core acknowledged with success:
+		// number of transfers = sum of all counts, amount received per denomination = sum of the incoming totals
+		g := lw.App.OrbiterKeeper.ExportGenesis(lw.Ctx).DispatcherGenesis
+		var n uint64
+		for i := range g.DispatchedCounts {
+			n += g.DispatchedCounts[i].Count
+		}
+		gotIn := map[string]*big.Int{}
+		for i := range g.DispatchedAmounts {
+			e := &g.DispatchedAmounts[i]
+			if e.SourceId.ProtocolId != 1 { // only IBC sources are produced by this history
+				continue
+			}
+			if gotIn[e.Denom] == nil {
+				gotIn[e.Denom] = new(big.Int)
+			}
+			gotIn[e.Denom].Add(gotIn[e.Denom], e.AmountDispatched.Incoming.BigInt())
+		}
+		okFold := n == foldN
+		for d, v := range foldIn {
+			if gotIn[d] == nil || gotIn[d].Cmp(v) != 0 {
+				okFold = false
+			}
+		}
+		if !okFold {
+			violate(foldKind, "end of history", fmt.Sprintf("after the block history the statistics count %d transfers with incoming totals %v; IBC core acknowledged %d orbiter transfers with success, totalling %v", n, gotIn, foldN, foldIn))
+		} else {
+			rep.Outcome("real-history-statistics-equal-the-fold")
+		}
 		rep.Count("loop_blocks", lw.Height-2)
 		rep.Extra["loop_block_noise_stores"] = func() []string {
 			var n []string
